@@ -41,6 +41,14 @@ var c16AssertAllowed = map[string]string{
 	"(*flows/definition.flow).MarshalJSON/(flows/definition.localization)#1":                                  c16OwnImplReason,
 	"(*flows/definition.flow).MarshalJSON/(*flows/definition.node)#2":                                         c16OwnImplReason,
 }
+
+// c16FieldAssertAllowed: the same invariant stated for the field instead of the reading function (whichever function
+// of the package reads the field and asserts its own implementation type is covered).
+var c16FieldAssertAllowed = map[string]string{
+	"flows/definition.flow.localization/(flows/definition.localization)": c16OwnImplReason,
+	"flows/definition.flow.nodes/(*flows/definition.node)":               c16OwnImplReason,
+	"flows/definition.node.exits/(*flows/definition.exit)":               c16OwnImplReason,
+}
 var c16SliceAllowed = map[string]string{
 	"flows/definition/legacy/expressions.MigrateStringLiteral/[1:]": "only called from VisitStringLiteral with the text of a STRING token, which starts and ends with a double quote",
 	"(*flows/definition/legacy.Translations).UnmarshalJSON/[0]":     "encoding/json never calls UnmarshalJSON with empty input",
@@ -91,7 +99,7 @@ func checkC16(p *core.Program, r *core.Report) {
 		return
 	}
 	c16R1(p, r)
-	uncheckedAsserts(p, r, fns, "R2", c16AssertAllowed, "definition-migration code (input is untrusted JSON)")
+	uncheckedAsserts(p, r, fns, "R2", c16AssertAllowed, "definition-migration code (input is untrusted JSON)", c16FieldAssertAllowed)
 	c16R3(p, r, fns)
 	r.Count("const_offset_string_sites", c04R5(p, r, fns, "R4", c16SliceAllowed))
 	r.Rule("R8", "wildcard agreement between the producer of template paths (inspect.TemplatePaths: \".*\" for maps, \"[*]\" for slices) and their consumer jsonpath.visit (object arm and array arm both accept \"*\")")
